@@ -59,31 +59,6 @@ theorem dataIter_stuck (a : ANode) (script : List DAAns) (h : Nat) (h1 : a.n.dat
   unfold dataIter
   rw [if_neg (by omega), if_neg (by omega), pendingBlocks_none h1 h2 hb]
 
-/-- on a chain whose initial height is above 1 the pending range `(0, height]` always contains height 1, which is
-never stored -/
-theorem run_block_one_missing (c : Cfg) (hih : 2 ≤ c.initialHeight) (rs : List (SeqResp × ExecResp)) :
-    1 ≤ (run c (freshNode c) rs).store.height ∧ (run c (freshNode c) rs).store.getBlock 1 = none := by
-  obtain ⟨hh, hg, _, _⟩ := freshDisk_facts c
-  have hi := freshNode_inv c (by omega)
-  have h0 : 1 ≤ (freshNode c).store.height := by
-    show 1 ≤ (freshDisk c).height; rw [hh]; omega
-  -- stability of committed heights along a run
-  have hst : ∀ (n : Node), Inv c n → (freshNode c).store.height ≤ n.store.height →
-      n.store.getBlock 1 = none →
-      (freshNode c).store.height ≤ (run c n rs).store.height ∧ (run c n rs).store.getBlock 1 = none := by
-    induction rs with
-    | nil => intro n _ h1 h2; exact ⟨h1, h2⟩
-    | cons r rs ih =>
-      intro n hn h1 h2
-      have hs := publish_store hn r.1 r.2
-      refine ih (publish c n r.1 r.2).1 (publish_inv hn r.1 r.2) ?_ ?_
-      · rcases hs.1 with h | h <;> omega
-      · rw [hs.2 1 (by omega)]; exact h2
-  have := hst (freshNode c) hi (Nat.le_refl _) (by
-    show (freshDisk c).getBlock 1 = none
-    rw [hg, if_neg (by omega)])
-  exact ⟨by omega, this.2⟩
-
 /-! ### `Producer.Inv` supplies the hypothesis of the iteration theorems -/
 
 theorem hdrOK_of_inv {c : Cfg} {n : Node} (hi : Inv c n) (hw : c.initialHeight ≤ n.hdrWm + 1) : HdrOK n.store n.hdrWm := by
@@ -183,51 +158,139 @@ theorem LoopInv.persisted_other {d : Bool} {a0 : ANode} {items0 : List Item} {a 
 theorem wmOf_kv {d d' : Store} (h : d'.kv = d.kv) (k : String) : wmOf d' k = wmOf d k := by
   simp [wmOf, Store.getMeta, h]
 
-/-- what `NewManager` reloads: exactly the persisted watermarks; blocks and metadata of the image are kept -/
+theorem getMeta_kv {d d' : Store} (h : d'.kv = d.kv) (k : String) : d'.getMeta k = d.getMeta k := by
+  simp [Store.getMeta, h]
+
+/-- `NewManager` never lowers a watermark and starts it at `initialHeight - 1` at least -/
+theorem wmRaise_ge (c : Cfg) (w : Nat) : w ≤ wmRaise c w ∧ c.initialHeight ≤ wmRaise c w + 1 := by
+  unfold wmRaise; split <;> omega
+
+theorem wmRaise_eq {c : Cfg} {w : Nat} (h : c.initialHeight ≤ w + 1) : wmRaise c w = w := by
+  unfold wmRaise; rw [if_neg (by omega)]
+
+theorem wmRaise_cases (c : Cfg) (w : Nat) :
+    wmRaise c w = w ∨ (wmRaise c w = c.initialHeight - 1 ∧ w < c.initialHeight - 1) := by
+  unfold wmRaise; split
+  · right; omega
+  · left; rfl
+
+/-- the part of `start` after the state has been determined (loaded, or the genesis state with the genesis block
+saved): raise the chain height to the state's, load the two watermarks and raise them to `initialHeight - 1` -/
+def startTail (c : Cfg) (s : State) (d1 : Store) (ws1 : List SW) : Except StartErr (Node × List SW) :=
+  let d2 := d1.applyAll (setHeightW d1 s.lastHeight)
+  match wmOf d2 Producer.hdrWmKey, wmOf d2 Producer.dataWmKey with
+  | some hw, some dw =>
+    let d4 := (d2.applyAll (wmWrite c Producer.hdrWmKey hw)).applyAll (wmWrite c Producer.dataWmKey dw)
+    .ok ({ store := d4, lastState := s, lastBatchData := ((d4.getMeta lastBatchDataKey).bind bytesToBatchData).getD [],
+           hdrWm := wmRaise c hw, dataWm := wmRaise c dw, daHeight := s.daHeight },
+         ws1 ++ setHeightW d1 s.lastHeight ++ wmWrite c Producer.hdrWmKey hw ++ wmWrite c Producer.dataWmKey dw)
+  | _, _ => .error .badWatermark
+
+theorem start_eq (c : Cfg) (disk : Store) : start c disk =
+    match disk.state with
+    | none => startTail c (genesisState c) (disk.apply (.saveBlock c.initialHeight (genesisBlock c)))
+        [.saveBlock c.initialHeight (genesisBlock c)]
+    | some s => if c.initialHeight > s.lastHeight then .error .genesisAboveState else startTail c s disk [] := by
+  unfold start startTail
+  cases hs : disk.state with
+  | none =>
+    simp only [genesisState, wmWrite, wmRaise, Nat.not_lt_zero, ↓reduceIte]
+    split <;> simp_all
+  | some s =>
+    by_cases hgt : c.initialHeight > s.lastHeight
+    · simp only [hgt, ↓reduceIte]
+    · simp only [hgt, ↓reduceIte, wmWrite, wmRaise, Nat.not_lt_zero, List.nil_append]
+      split <;> simp_all
+
+theorem startTail_facts {c : Cfg} {s : State} {d1 : Store} {ws1 : List SW} {n : Node} {ws : List SW}
+    (h : startTail c s d1 ws1 = .ok (n, ws)) :
+    ∃ hw dw, wmOf d1 Producer.hdrWmKey = some hw ∧ wmOf d1 Producer.dataWmKey = some dw ∧
+      n.hdrWm = wmRaise c hw ∧ n.dataWm = wmRaise c dw ∧ n.lastState = s ∧
+      n.store.getMeta Producer.hdrWmKey = (if c.initialHeight > 1 ∧ c.initialHeight - 1 > hw
+        then some (le64 (c.initialHeight - 1)) else d1.getMeta Producer.hdrWmKey) ∧
+      n.store.getMeta Producer.dataWmKey = (if c.initialHeight > 1 ∧ c.initialHeight - 1 > dw
+        then some (le64 (c.initialHeight - 1)) else d1.getMeta Producer.dataWmKey) ∧
+      (∀ k, k ≠ Producer.hdrWmKey → k ≠ Producer.dataWmKey → n.store.getMeta k = d1.getMeta k) ∧
+      (∀ k, n.store.getBlock k = d1.getBlock k) ∧
+      n.store.height = (if s.lastHeight > d1.height then s.lastHeight else d1.height) ∧
+      n.store.state = d1.state := by
+  unfold startTail at h
+  simp only at h
+  obtain ⟨a1, a2, a3, a4⟩ := applyAll_setHeightW d1 s.lastHeight
+  generalize d1.applyAll (setHeightW d1 s.lastHeight) = d2 at h a1 a2 a3 a4
+  split at h
+  · rename_i hw dw e1 e2
+    simp only [Except.ok.injEq, Prod.mk.injEq] at h
+    obtain ⟨rfl, _⟩ := h
+    obtain ⟨b1, b2, b3, b4, b5⟩ := wmWrite_facts c d2 Producer.hdrWmKey hw
+    generalize d2.applyAll (wmWrite c Producer.hdrWmKey hw) = d3 at b1 b2 b3 b4 b5
+    obtain ⟨e1', e2', e3', e4', e5'⟩ := wmWrite_facts c d3 Producer.dataWmKey dw
+    have hne : Producer.hdrWmKey ≠ Producer.dataWmKey := by decide
+    refine ⟨hw, dw, by rw [← wmOf_kv a4]; exact e1, by rw [← wmOf_kv a4]; exact e2, rfl, rfl, rfl, ?_, ?_, ?_, ?_, ?_, ?_⟩
+    · show (d3.applyAll _).getMeta _ = _
+      rw [e4' _ hne, b5, getMeta_kv a4]
+    · show (d3.applyAll _).getMeta _ = _
+      rw [e5', b4 _ hne.symm, getMeta_kv a4]
+    · intro k k1 k2
+      show (d3.applyAll _).getMeta _ = _
+      rw [e4' k k2, b4 k k1, getMeta_kv a4]
+    · intro k
+      show (d3.applyAll _).getBlock _ = _
+      rw [e2', b2, a2]
+    · show (d3.applyAll _).height = _
+      rw [e1', b1, a1]
+    · show (d3.applyAll _).state = _
+      rw [e3', b3, a3]
+  · simp at h
+
+/-- what `NewManager` reloads: the persisted watermarks, each **raised to `initialHeight - 1`** (and persisted when
+raised); blocks (except a re-save of the genesis block when no state was saved), all other metadata, the saved state and
+the chain height (raised to the state's height at most) of the image are kept -/
 theorem start_facts {c : Cfg} {disk : Store} {n : Node} {ws : List SW} (h : start c disk = .ok (n, ws)) :
-    wmOf disk Producer.hdrWmKey = some n.hdrWm ∧ wmOf disk Producer.dataWmKey = some n.dataWm ∧
-    n.store.kv = disk.kv ∧
-    (disk.state ≠ none → (∀ k, n.store.getBlock k = disk.getBlock k) ∧ disk.height ≤ n.store.height) := by
-  unfold start at h
+    ∃ hw dw, wmOf disk Producer.hdrWmKey = some hw ∧ wmOf disk Producer.dataWmKey = some dw ∧
+      n.hdrWm = wmRaise c hw ∧ n.dataWm = wmRaise c dw ∧
+      n.store.getMeta Producer.hdrWmKey = (if c.initialHeight > 1 ∧ c.initialHeight - 1 > hw
+        then some (le64 (c.initialHeight - 1)) else disk.getMeta Producer.hdrWmKey) ∧
+      n.store.getMeta Producer.dataWmKey = (if c.initialHeight > 1 ∧ c.initialHeight - 1 > dw
+        then some (le64 (c.initialHeight - 1)) else disk.getMeta Producer.dataWmKey) ∧
+      (∀ k, k ≠ Producer.hdrWmKey → k ≠ Producer.dataWmKey → n.store.getMeta k = disk.getMeta k) ∧
+      (∀ k, (disk.state = none → k ≠ c.initialHeight) → n.store.getBlock k = disk.getBlock k) ∧
+      disk.height ≤ n.store.height ∧ n.store.state = disk.state ∧
+      (∀ s, disk.state = some s → n.lastState = s) ∧ (disk.state = none → n.lastState = genesisState c) := by
+  rw [start_eq] at h
   cases hs : disk.state with
   | none =>
     simp only [hs] at h
-    generalize hd1 : disk.apply (SW.saveBlock c.initialHeight (genesisBlock c)) = d1 at h
-    obtain ⟨_, _, _, a4⟩ := applyAll_setHeightW d1 (c.initialHeight - 1)
-    have hkv : (d1.applyAll (setHeightW d1 (c.initialHeight - 1))).kv = disk.kv := by rw [a4, ← hd1]; rfl
-    rw [wmOf_kv hkv, wmOf_kv hkv] at h
-    split at h
-    · rename_i hw dw e1 e2
-      simp only [Except.ok.injEq, Prod.mk.injEq] at h
-      obtain ⟨rfl, _⟩ := h
-      exact ⟨e1, e2, hkv, fun hne => absurd rfl hne⟩
-    · simp at h
-  | some st =>
-    by_cases hgt : c.initialHeight > st.lastHeight
-    · simp [hs, hgt] at h
-    · simp only [hs, hgt, ↓reduceIte] at h
-      obtain ⟨a1, a2, _, a4⟩ := applyAll_setHeightW disk st.lastHeight
-      rw [wmOf_kv a4, wmOf_kv a4] at h
-      split at h
-      · rename_i hw dw e1 e2
-        simp only [Except.ok.injEq, Prod.mk.injEq] at h
-        obtain ⟨rfl, _⟩ := h
-        refine ⟨e1, e2, a4, fun _ => ⟨a2, ?_⟩⟩
-        show disk.height ≤ (disk.applyAll (setHeightW disk st.lastHeight)).height
-        rw [a1]; split <;> omega
-      · simp at h
+    obtain ⟨hw, dw, f1, f2, f3, f4, f5, f6, f7, f8, f9, f10, f11⟩ := startTail_facts h
+    refine ⟨hw, dw, f1, f2, f3, f4, f6, f7, f8, fun k hk => ?_, ?_, ?_, fun s hs' => (by cases hs'), fun _ => f5⟩
+    · rw [f9]; exact getBlock_saveBlock_other _ _ _ _ (Ne.symm (hk rfl))
+    · rw [f10]
+      have : (disk.apply (SW.saveBlock c.initialHeight (genesisBlock c))).height = disk.height := rfl
+      rw [this]; split <;> omega
+    · rw [f11]; exact hs
+  | some s =>
+    simp only [hs] at h
+    by_cases hgt : c.initialHeight > s.lastHeight
+    · simp [hgt] at h
+    · rw [if_neg hgt] at h
+      obtain ⟨hw, dw, f1, f2, f3, f4, f5, f6, f7, f8, f9, f10, f11⟩ := startTail_facts h
+      refine ⟨hw, dw, f1, f2, f3, f4, f6, f7, f8, fun k _ => f9 k, ?_, by rw [f11]; exact hs,
+        fun s' hs' => (by cases hs'; exact f5), fun hn => (by cases hn)⟩
+      rw [f10]; split <;> omega
 
-/-- **restart reloads exactly the persisted watermarks** (which the submission loops keep equal to the ones in memory),
-so watermarks never decrease across a restart; a clean stop keeps the marks, the DA-included height is re-read -/
+/-- **restart reloads the persisted watermarks** (which the submission loops keep equal to the ones in memory) **raised
+to `initialHeight - 1`**: watermarks never decrease across a restart, and a node whose watermarks are at or above
+`initialHeight - 1` (every reachable node) gets exactly its watermarks back; a clean stop keeps the marks, the
+DA-included height is re-read -/
 theorem restart_wm {c : Cfg} {a a' : ANode} {clean : Bool} (h : restart c a a.n.store clean = some a')
     (hp1 : Persisted false a) (hp2 : Persisted true a) (hb1 : a.n.hdrWm < 2 ^ 64) (hb2 : a.n.dataWm < 2 ^ 64) :
-    a'.n.hdrWm = a.n.hdrWm ∧ a'.n.dataWm = a.n.dataWm ∧ a'.daBlobs = a.daBlobs ∧ a'.daH = a.daH ∧
+    a'.n.hdrWm = wmRaise c a.n.hdrWm ∧ a'.n.dataWm = wmRaise c a.n.dataWm ∧ a'.daBlobs = a.daBlobs ∧ a'.daH = a.daH ∧
     a'.finals = a.finals ∧ (clean = true → a'.hMarks = a.hMarks ∧ a'.dMarks = a.dMarks) := by
   unfold restart at h
   split at h
   · simp at h
   · rename_i n ws hst
-    obtain ⟨e1, e2, _, _⟩ := start_facts hst
+    obtain ⟨hw, dw, e1, e2, e3, e4, _⟩ := start_facts hst
     have w1 := wmOf_of_persisted hp1 hb1
     have w2 := wmOf_of_persisted hp2 hb2
     simp only [Option.some.injEq] at h
@@ -235,7 +298,9 @@ theorem restart_wm {c : Cfg} {a a' : ANode} {clean : Bool} (h : restart c a a.n.
     have w1' : wmOf a.n.store Producer.hdrWmKey = some a.n.hdrWm := w1
     have w2' : wmOf a.n.store Producer.dataWmKey = some a.n.dataWm := w2
     rw [w1'] at e1; rw [w2'] at e2
-    refine ⟨by simpa using e1.symm, by simpa using e2.symm, rfl, rfl, rfl, fun hc => by simp [hc]⟩
+    simp only [Option.some.injEq] at e1 e2
+    subst e1; subst e2
+    exact ⟨e3, e4, rfl, rfl, rfl, fun hc => by simp [hc]⟩
 
 /-- the data watermark stays at or below the chain height -/
 theorem dataIter_wm_le (a : ANode) (script : List DAAns) (hok : DataOK a.n.store a.n.dataWm)
